@@ -81,7 +81,11 @@ Next ==
                   panic == e.res = "Panic"
                   m1 == IF panic THEN mon[e.node] ELSE MonStep(mon[e.node], ObsOf(e, prev))
                   g1 == IF panic \/ ~On("MON_C17") THEN gm ELSE C17Step(gm, ObsOf(e, prev))
-                  nv == IF panic THEN <<>>
+                  nv == IF panic
+                        THEN (IF On("MON_C06")
+                              THEN <<[line |-> l, run |-> env.run, call |-> e.call, v |-> ("C06" :> {"panic"}),
+                                      extra |-> [msg |-> IF HasField(e, "panic") THEN e.panic ELSE ""]]>>
+                              ELSE <<>>)
                         ELSE NewViols(m1, l, e)
                              \o (IF g1.v = {} THEN <<>>
                                  ELSE <<[line |-> l, run |-> env.run, call |-> e.call, v |-> ("C17" :> g1.v)]>>)
@@ -98,7 +102,11 @@ Next ==
                  /\ UNCHANGED env
          [] e.ev = "group" ->
               \* a driver-level comparison across several instances / runs
-              LET gv == IF e.prop = "C01" /\ On("MON_C01") THEN C01Group(e) ELSE {}
+              LET gv == IF e.prop = "C01" /\ On("MON_C01") THEN C01Group(e)
+                        ELSE IF e.prop = "C06" /\ On("MON_C06")
+                        THEN (IF e.panics = 0 /\ e.min_maxtx >= 1 /\ e.max_maxtx <= 255 /\ e.min_s2d_ms > 0 THEN {}
+                              ELSE {"Config::new_lan/new_wan-panicked-or-produced-an-illegal-config"})
+                        ELSE {}
                   nv == IF gv = {} THEN <<>>
                         ELSE <<[line |-> l, run |-> env.run, call |-> "group:" \o e.kind, v |-> (e.prop :> gv)]>>
               IN /\ viol' = [n |-> viol.n + Len(nv),
